@@ -213,6 +213,7 @@ type Op struct {
 	FP    []byte
 	Raw   []string // protocol lines computed at execution time (facts)
 	Sites []PatchSite
+	IO    bool // C09: the model is asked for the operation's I/O plan (`io` lines)
 	// filled in by the executor
 	Now int64
 	Rnd []byte
@@ -220,6 +221,14 @@ type Op struct {
 
 // Lines serialises the op (after execution, so Now/Rnd are known).
 func (o *Op) Lines() []string {
+	ls := o.lines0()
+	if o.IO && len(ls) > 0 && isCrashOp(o.Kind) {
+		ls[0] += " io=1"
+	}
+	return ls
+}
+
+func (o *Op) lines0() []string {
 	switch o.Kind {
 	case "case":
 		return []string{fmt.Sprintf("case id=%d", o.Case)}
